@@ -2,8 +2,9 @@
    (what the code does) and with the documented tables (what the manual pages
    say).  [doc_tables] is the model's table record filled from DocSpec only
    where the documentation speaks (tokens, grammar, rdomain range, the repaired
-   cycling); the step scripts, argv template and limits, which the pages do not
-   describe, are taken over from the regenerated tables.
+   cycling); the step scripts, argv template, limits and the re-entry guard of
+   config_default_build_dir (D18), which the pages do not describe, are taken
+   over from the regenerated tables.
 
    The SPECIFICATION ORACLE applied to what the implementation did is
    [spec_config]: the configuration reader run on the DOCUMENTED tables.  By
